@@ -2,6 +2,7 @@
 # usage: mut.sh '<sed expression>' <file relative to /repo> <check ids...>
 # applies an ad-hoc textual mutation to /repo, runs the checks, and restores the file.
 expr="$1"; file="$2"; shift 2
+export GBCHECK_OUT=$(mktemp -d /tmp/gbout.XXXXXX); trap 'rm -rf "$GBCHECK_OUT"' EXIT  # scratch runs never overwrite /verif/evidence
 cd /repo || exit 2
 sed -i "$expr" "$file"
 if git diff --quiet; then echo "MUTATION DID NOT APPLY"; exit 3; fi
